@@ -101,6 +101,7 @@ func runSysWS(x *X) {
 	connHdr := []string{"Upgrade", "upgrade", "keep-alive, Upgrade", "Upgrade, keep-alive", "Keep-Alive,upgrade"}[c.Intn(5, "conn-header")]
 	// the protocol token is case-insensitive, and WebSocket is not the only protocol a connection can be upgraded to
 	upProto := []string{"websocket", "websocket", "WebSocket", "WEBSOCKET", "mqtt", "x-tunnel/1.0"}[c.Intn(6, "upgrade-token")]
+	earlyHints := c.Intn(5, "early-hints-before-101") == 0
 	upEcho := upProto
 	if c.Intn(3, "echo-lower") == 0 {
 		upEcho = strings.ToLower(upProto)
@@ -127,6 +128,11 @@ func runSysWS(x *X) {
 		backend.mu.Lock()
 		backendHdr = req.Header.Clone()
 		backend.mu.Unlock()
+		if earlyHints {
+			// an informational response before the switch (a backend behind its own gateway): it is
+			// relayed, and then the 101 -- nothing else may appear on the client's connection
+			io.WriteString(conn, "HTTP/1.1 103 Early Hints\r\nLink: </app.css>; rel=preload\r\n\r\n")
+		}
 		io.WriteString(conn, "HTTP/1.1 101 Switching Protocols\r\nUpgrade: "+upEcho+"\r\nConnection: Upgrade\r\nSec-WebSocket-Accept: s3pPLMBiTxaQ9kYGzzhZRbK+xOo=\r\n\r\n")
 		backend.mu.Lock()
 		backend.conn, backend.ready = conn, true
@@ -148,6 +154,9 @@ func runSysWS(x *X) {
 		io.WriteString(conn, "GET /ws/chat?room=1 HTTP/1.1\r\nHost: helios.test\r\nUpgrade: "+upProto+"\r\nConnection: "+connHdr+"\r\nSec-WebSocket-Key: dGhlIHNhbXBsZSBub25jZQ==\r\nSec-WebSocket-Version: 13\r\nX-API-Key: k\r\nAccept-Encoding: gzip\r\n"+idLine+"\r\n")
 		br := bufio.NewReader(conn)
 		resp, err := http.ReadResponse(br, &http.Request{Method: "GET"})
+		for err == nil && resp.StatusCode >= 102 && resp.StatusCode < 200 {
+			resp, err = http.ReadResponse(br, &http.Request{Method: "GET"}) // (informational: the real answer follows)
+		}
 		if err != nil {
 			upgradeErr = "read 101: " + err.Error()
 			conn.Close()
@@ -279,7 +288,11 @@ func runSysWS(x *X) {
 		x.Violate("C03", "C03/panic-serving", "net/http reported: %s", p)
 	}
 	if upgradeErr != "" {
-		x.Violate("C20", "C20/upgrade-failed{chain="+fmt.Sprint(names)+"}", "the Upgrade request did not get a 101 through chain %v: %s", names, upgradeErr)
+		kind := upgradeErr
+		if i := strings.Index(kind, ":"); i > 0 {
+			kind = kind[:i]
+		}
+		x.Violate("C20", "C20/upgrade-failed{"+kind+"}", "the Upgrade request did not get a 101 through chain %v: %s", names, upgradeErr)
 		return
 	}
 	x.Probe("tunnel-established")
